@@ -1,5 +1,14 @@
--- REGENERATED from src/build/incrementality.go, src/core/utils.go, src/test/test_step.go by /verif/harness/extract/c11 on every run. Do not edit.
+-- REGENERATED from src/build/incrementality.go, src/core/utils.go, src/test/test_step.go, src/fs/hash.go, src/build/filegroup.go by /verif/harness/extract/c11 on every run. Do not edit.
 namespace PlzVerif.Generated.C11
+def copyHashMarksDestination : Bool := true
+def copyHashMarkCondition : String := "<copy>"
+def copyHashPassesCopyTrue : Bool := true
+def hashMarkedPathAssigns : List String := ["store=false", "recalc=true"]
+def hashWorkerArgs : List String := ["path", "store", "!recalc", "timestamp"]
+def hashWorkerReadGuardedByRead : Bool := true
+def hashWorkerStoreGuardedByStore : Bool := true
+def filegroupBuildSequence : List String := ["built", "CopyHash", "built", "CopyHash"]
+def runtimeHashPathVia : String := "PathHasher.Hash(recalc=false)"
 def runtimeHashParts : List String := ["rule(runtime=true,postBuild=false)", "rule(runtime=true,postBuild=true)", "config", "files-digest"]
 def runtimeHashLoopIter : String := "IterRuntimeFiles"
 def runtimeHashLoopWrites : List String := ["hash", "name:dest", "nul"]
